@@ -185,9 +185,15 @@ func (c *Classifier) match(in io.Reader) (Results, error) {
 			out = append(out, candidates[i])
 		}
 	}
+	// With a threshold of 0 every corpus document passes the token-similarity
+	// filter, so an input without a single word gets this far as well.
+	totalLines := 0
+	if len(id.Tokens) > 0 {
+		totalLines = id.Tokens[len(id.Tokens)-1].Line
+	}
 	return Results{
 		Matches:         out,
-		TotalInputLines: id.Tokens[len(id.Tokens)-1].Line,
+		TotalInputLines: totalLines,
 	}, nil
 }
 
